@@ -17,6 +17,7 @@ import (
 )
 
 type doc struct {
+	Stress  int               `json:"stress"`
 	Harness string            `json:"harness"`
 	Values  map[string]uint64 `json:"values"`
 	Params  map[string]int    `json:"params"`
@@ -130,7 +131,28 @@ func Reach(label string) {}
 func Track(root interface{}) {}
 func Begin(label string)     {}
 func End()                   {}
-func NoRace(a, b, id string) {}
+
+var sections = map[string]func(){}
+
+// Section runs f once and remembers it under label. Under the engine every access f makes to a tracked
+// (shared) cell is recorded together with the set of mutexes held.
+func Section(label string, f func()) {
+	sections[label] = f
+	f()
+}
+
+// NoRace states that sections a and b may run concurrently without a data race. Under the engine this is
+// the lock-set obligation "every pair of conflicting accesses holds a common mutex"; natively the two
+// sections are run concurrently (the replay is built with -race, so the race detector is the judge).
+func NoRace(a, b, id string) {
+	fa, fb := sections[a], sections[b]
+	if fa == nil || fb == nil {
+		return
+	}
+	for round := 0; round < 50; round++ {
+		Par(func() { defer func() { recover() }(); fa() }, func() { defer func() { recover() }(); fb() })
+	}
+}
 
 func Par(f, g func()) {
 	done := make(chan interface{}, 2)
@@ -170,20 +192,29 @@ func ReplayAll(harnesses map[string]func()) {
 		} else if h := harnesses[cur.Harness]; h == nil {
 			o.Panic = "no such harness: " + cur.Harness
 		} else {
-			func() {
-				defer func() {
-					if r := recover(); r != nil {
-						if _, ok := r.(assumeViolated); ok {
-							o.Assume = true
-							return
+			rounds := 1
+			if cur.Stress > 0 {
+				rounds = cur.Stress // the counterexample needs a particular thread schedule: try repeatedly
+			}
+			for round := 0; round < rounds && len(o.Failed) == 0 && o.Panic == ""; round++ {
+				if round > 0 {
+					load(f)
+				}
+				func() {
+					defer func() {
+						if r := recover(); r != nil {
+							if _, ok := r.(assumeViolated); ok {
+								o.Assume = true
+								return
+							}
+							o.Panic = fmt.Sprintf("%v\n%s", r, moduleFrames(string(debug.Stack())))
 						}
-						o.Panic = fmt.Sprintf("%v\n%s", r, moduleFrames(string(debug.Stack())))
-					}
+					}()
+					h()
+					o.Finished = true
 				}()
-				h()
-				o.Finished = true
-			}()
-			o.Failed = append(o.Failed, failed...)
+				o.Failed = append(o.Failed, failed...)
+			}
 		}
 		b, _ := json.Marshal(o)
 		fmt.Printf("\nNDRESULT %s\n", b)
